@@ -166,6 +166,25 @@ class CallMixin:
             self.pre.append(f'{a} = {b};')
             self.pre.append(f'{b} = {tn};')
             return '((void)0)'
+        if name == 'erase' and len(args) == 2 and self.family(self.tyof(args[0]).strip_ref()) == 'vector':
+            # std::erase(vector, value) (C++20): stable compaction of the elements that differ from value
+            vt = self.tyof(args[0]).strip_ref()
+            et = vt.args[0]
+            if self.cond_depth:
+                raise LoweringError('std::erase in a conditional operand')
+            v = self.ex(args[0])
+            val = self.hoist(et, self.value_of(args[1]))
+            i, w = self.tmp('__ei'), self.tmp('__ew')
+            if self.family(et) == 'array' or et.kind == 'rec':
+                self.helpers.add('memcmp')
+                eq = f'(cxx_memcmp(&({v}).p[{i}], &{val}, sizeof({self.ctype(et)})) == 0)'
+            else:
+                eq = f'(({v}).p[{i}] == {val})'
+            self.cur['loops'] += 1
+            self.pre.append(f'uint64_t {w} = 0;')
+            self.pre.append(f'for (uint64_t {i} = 0; {i} < ({v}).n; ++{i}) {{ if (!{eq}) {{ ({v}).p[{w}] = ({v}).p[{i}]; ++{w}; }} }}')
+            self.pre.append(f'({v}).n = {w};')
+            return '((void)0)'
         if name == 'duration_cast' and len(args) == 1:
             return self.duration_convert(self.ex(args[0]), self.tyof(args[0]), rt)
         if name == 'now' and not args:
@@ -456,6 +475,15 @@ class CallMixin:
                 if m == 'emplace_back' and len(args) == 2 and self.family(et) == 'pair':
                     # vector<pair<A, B>>::emplace_back(a, b): the pair is built from the two arguments
                     return f'{pre}_push_back{"_reserved" if reserved else ""}({addr(obj)}, (({self.ctype(et)}){{{self.value_of(args[0])}, {self.value_of(args[1])}}}))'
+                if m == 'swap' and len(args) == 1:
+                    # member swap of two containers of the same model type: the three-word representations are exchanged
+                    if self.cond_depth:
+                        raise LoweringError('container swap in a conditional operand')
+                    o2 = self.ex(args[0])
+                    tn = self.hoist(bt, obj)
+                    self.pre.append(f'{obj} = {o2};')
+                    self.pre.append(f'{o2} = {tn};')
+                    return '((void)0)'
                 if m == 'pop_back':
                     return f'{pre}_pop_back({addr(obj)})'
                 if m == 'pop_front':
